@@ -19,7 +19,7 @@ def mem_bytes(m):
 
 
 def add(name, flav, *, policy=None, limit=None, ttl=None, mem=None, fw=None, cname=None, tags=(), events=(), deps=(),
-        inv=False, cif=False, ret='u64', args=(('a', 'u64'),), recv=None, gates=0, body=None, group='cfg', fw_lit=None):
+        inv=False, cif=False, ret='u64', args=(('a', 'u64'),), recv=None, gates=0, body=None, group='cfg', fw_lit=None, rev=False):
     """flav: G (sync global), T (sync thread), A (async)"""
     _id[0] += 1
     sid = _id[0]
@@ -36,6 +36,7 @@ def add(name, flav, *, policy=None, limit=None, ttl=None, mem=None, fw=None, cna
     if deps: attrs.append('dependencies = [' + ', '.join(json.dumps(t) for t in deps) + ']')
     if inv: attrs.append(f'invalidate_on = stale_{name}')
     if cif: attrs.append(f'cache_if = pred_{name}')
+    if rev: attrs.reverse()          # the same attribute list written in the opposite order
     is_res = ret.replace(' ', '').startswith(('Result<', 'std::result::Result<'))
     default_pol = 'fifo'
     rec = dict(name=name, id=sid, flavour=flav, macro='cache_async' if flav == 'A' else 'cache', attrs=attrs, group=group,
@@ -184,6 +185,20 @@ def main():
         add(f'gk_{k}', 'G', args=a, group='key')
         add(f'ak_{k}', 'A', args=a, group='key')
     add('tk_strstr', 'T', args=shapes['strstr'], group='key')
+    # ---- larger limits for invalidation followed by overflows
+    for f in 'GA':
+        add(f'{f.lower()}_arc_l4', f, policy='arc', limit=4, group='cfg')
+        add(f'{f.lower()}_tlru_l4', f, policy='tlru', limit=4, group='cfg')
+        add(f'{f.lower()}_lfu_l4', f, policy='lfu', limit=4, group='cfg')
+    # ---- attribute order must not matter: reversed twins
+    for f in 'GTA':
+        add(f'{f.lower()}_rev_tlru_ttl10_w15_l2', f, policy='tlru', limit=2, ttl=10, fw=1.5, rev=True, group='cfg')
+        add(f'{f.lower()}_rev_tlru_w03_l2', f, policy='tlru', limit=2, fw=0.3, rev=True, group='cfg')
+        add(f'{f.lower()}_rev_mem2mb_lru_l2', f, policy='lru', limit=2, mem='2MB', rev=True, group='mem')
+        add(f'{f.lower()}_rev_cif_res_mem_l2', f, cif=True, ret='Result<u64, u8>', mem='1KB', limit=2, rev=True, group='cif')
+        add(f'{f.lower()}_rev_inv_l2_lru', f, inv=True, limit=2, policy='lru', rev=True, group='inv')
+    add('g_rev_named_tag', 'G', cname='rev_custom', tags=['t9'], limit=3, policy='arc', ttl=9, rev=True, group='meta')
+    add('a_rev_named_dep', 'A', cname='rev_custom_a', deps=['rev_custom'], events=['e9'], limit=3, policy='lfu', rev=True, group='meta')
     # ---- async bodies with await points
     add('a_gate1', 'A', gates=1, group='gate')
     add('a_gate2_lru_l2', 'A', gates=2, policy='lru', limit=2, group='gate')
